@@ -162,6 +162,20 @@ def _run(ctx, rng, quick, hbin, scratch):
             ctx.violation('gen-failed:' + op, 'the real Writer failed to produce a test file: ' + h[:200], {'kind': 'harness', 'op': op}, found_input=False)
             return
         files[op.split()[1]].append(bytes.fromhex(h) if h != '-' else b'')
+    # XML changesets with discussions (hand-written: character data inside <text> arrives through
+    # expat's character callback, possibly in several pieces — seed C06-4), and an OPL changeset file
+    files['xml'].append((
+        "<?xml version='1.0' encoding='UTF-8'?>\n<osm version=\"0.6\" generator=\"c06\">\n"
+        " <changeset id=\"15\" created_at=\"2020-01-01T00:00:00Z\" closed_at=\"2020-01-01T01:00:00Z\" open=\"false\" user=\"u &amp; v\" uid=\"1\" "
+        "min_lat=\"1\" min_lon=\"2\" max_lat=\"3\" max_lon=\"4\" num_changes=\"2\" comments_count=\"2\">\n"
+        "  <tag k=\"comment\" v=\"x y\"/>\n  <discussion>\n"
+        "   <comment date=\"2020-01-02T00:00:00Z\" uid=\"2\" user=\"bob\">\n    <text>Did you really walk this way</text>\n   </comment>\n"
+        "   <comment date=\"2020-01-03T00:00:00Z\" uid=\"3\" user=\"eve\">\n    <text>yes &amp; no</text>\n   </comment>\n"
+        "  </discussion>\n </changeset>\n"
+        " <changeset id=\"16\" created_at=\"2020-01-05T00:00:00Z\" open=\"true\" user=\"w\" uid=\"9\" num_changes=\"0\" comments_count=\"1\">\n"
+        "  <discussion>\n   <comment date=\"2020-01-06T00:00:00Z\" uid=\"2\" user=\"bob\">\n    <text>plain single line text of some length</text>\n   </comment>\n  </discussion>\n"
+        " </changeset>\n</osm>\n").encode())
+    files['opl'].append(b'c15 k2 s2020-01-01T00:00:00Z e2020-01-01T01:00:00Z d2 i1 uu%20%v x2 y1 X4 Y3 Tcomment=x%20%y\nc16 k0 s2020-01-05T00:00:00Z e d1 i9 uw x y X Y T\n')
     o5m_scripts = {}
     for (nn, nw, tr) in [(0, 0, b'\xfe'), (1, 0, b'\xfe'), (1, 0, b''), (2, 1, b'\xfe'), (3, 2, b'\xfe\xfe'), (1, 0, b'\xfe' * 12), (6, 3, b'\xfe')] + \
             ([] if quick else [(20, 10, b'\xfe'), (2, 2, b''), (5, 0, b'\xfe' * 3)]):
@@ -237,6 +251,14 @@ def _run(ctx, rng, quick, hbin, scratch):
                     cs = head + tail[:(22 if quick else 292)]
                 for c in cs:
                     mon.append((fmt, v, 'reader %s %s %s' % (fmt, cuts_str(c), hx(v))))
+            # the same bytes through a FIFO (real NoDecompressor / PBF fd path): the writer pauses
+            # between the pieces, so read(2) returns short counts in mid-stream (seed C06-3)
+            fifo_variants = [data] + ([data[:len(data) * 2 // 3]] if len(data) > 30 else [])
+            for v in fifo_variants:
+                for _ in range(2 if quick else 6):
+                    k = 1 + rng.below(6)
+                    c = sorted(set(1 + rng.below(max(1, len(v) - 1)) for _ in range(k))) if len(v) > 1 else []
+                    mon.append((fmt, v, 'fifo %s %s %s' % (fmt, cuts_str(c), hx(v))))
 
     # ---------------------------------------------------------------- run
     for o in ops:
@@ -244,7 +266,7 @@ def _run(ctx, rng, quick, hbin, scratch):
         ctx.count('op:' + o.split()[0])
     for _, _, o in mon:
         ctx.note_case(o, nontrivial=' - ' not in o)
-        ctx.count('op:reader-' + o.split()[1])
+        ctx.count('op:%s-%s' % (o.split()[0], o.split()[1]))
     ctx.sample(ops[3][:300])
     ctx.sample([o for o in ops if o.startswith('pbf')][5][:300])
     ctx.sample([o for o in ops if o.startswith('o5m')][5][:300])
@@ -280,6 +302,10 @@ def _run(ctx, rng, quick, hbin, scratch):
     for (fmt, data), rs in groups.items():
         ref_op, ref = rs[0]
         for op, out in rs[1:]:
+            if op.startswith('fifo ') and out.startswith('err:') and ref.startswith('err:'):
+                # the fd path words some errors differently: compare the exception class only
+                if out.split(':')[1] == ref.split(':')[1]:
+                    continue
             if out != ref:
                 if fmt == 'o5m':
                     key = 'o5m-chunk-dependent'
